@@ -25,7 +25,7 @@ P = {
     "C04": ("proof", "Theorems: for every validated file, whenever validated_ast_to_machine returns a machine m, machine_to_table either returns a table and m has no pair of items demanding different actions on one lookahead column, or reports a conflict that is such a pair — there is no third outcome (no panic), so a parser is emitted iff the generated automaton is conflict-free (C04_emitted_iff_conflict_free, from the generator invariants MachineOK + Proofs/NoPanic); for any automaton: C04_ok_conflict_free, C04_conflict_genuine, C04_setAction_*. The generated automaton is proved to be *the* LALR(1) automaton of the grammar — the canonical LR(1) collection merged by core (C17_is_lalr1) — w.r.t. a FIRST map proved closed and sound. "
             "Termination of the generator is C07_generator_total. Independently the verdict is compared on every generated grammar with conflict-freeness of a specification-side canonical-LR(1)-merged-by-core construction (a different algorithm) and with the model.",
             "§6.2, §6.3, §7 C04", "emitted-iff-conflict-free theorem on the generated automaton + verdict vs spec-side LALR(1) oracle"),
-    "C05": ("proof", "A theorem cannot say 'rustc accepts'. Proved: every internal name chosen by create_unique_identifier is fresh w.r.t. all names in use and is recorded (C05_fresh). "
+    "C05": ("proof", "A theorem cannot say 'rustc accepts'. Proved (the hygiene 'for every naming' needs): every internal name chosen by create_unique_identifier is fresh w.r.t. all names in use and is recorded (C05_fresh); the twelve internal names are pairwise distinct and none is a user identifier, whatever the user's naming (C05_names_distinct); the search always finds them (C05_names_exist, pigeonhole). "
             "The emitted text is byte-equal to the model's rendering; rustc type-checks the emitted module for adversarial namings (generator-internal names, S, Eof, numeric-suffix neighbours, letterless names) with derive-less payload types. Known finding: zero-variant terminal enum.",
             "§7 C05, §12", "freshness theorem + rustc on adversarial namings"),
     "C06": ("proof", "Theorems on the emitted module (structure level): one public item per nonterminal with the declared name, in declaration order, struct for struct / enum for enum; the parse signature names the start type and the terminal enum (C06_items_and_signature); field level (C06_fields): the k-th item mirrors the k-th declaration — a struct's field list and each enum variant's (same variant names, same order) is unit-like when no field is used and otherwise lists exactly the used fields in declaration order, `_` fields omitted, named fields under their names, typed Box<N> for a nonterminal N and with the terminal's declared payload type for a terminal. "
